@@ -71,6 +71,21 @@ Theorem C07_abort_is_clean :
 Proof. exact abort_is_clean. Qed.
 Print Assumptions C07_abort_is_clean.
 
+(* ... and nothing is added when the run is CONTINUED: after makeAuthKey returned, the server sends any further
+   unencrypted messages [more] on the same connection (new_session_created, bad_server_salt, rpc_result, containers,
+   garbage, error codes, a close).  Whatever the ordinary handlers would do with a body ([handlers] is arbitrary - the
+   real ones call SaveSession), they are not reached: after an abort the client is still in service mode (the message
+   is parked for the next service request), after success an unencrypted message is refused (patch 0007). *)
+Theorem C07_abort_stays_clean :
+  forall (H : bytes -> bytes) (E D : bytes -> bytes -> bytes) (modexp : Z -> Z -> Z -> Z)
+         (is_prime : N -> bool) (split : N -> option (N * N)) (handlers : bytes -> list effect)
+         (pk : pubkey) (dr : draws) (e : env) sid msgid seq ack body eff fin (more : list arrival),
+  connect_and_request H E D modexp is_prime split pk dr e sid msgid seq ack body = (eff, fin) ->
+  (forall key hash salt, fin <> Success key hash salt) ->
+  forall x, In x (eff ++ after_exchange handlers fin more) -> exists b, x = SendPlain b.
+Proof. exact abort_stays_clean. Qed.
+Print Assumptions C07_abort_stays_clean.
+
 (* and on Success: plain messages, then exactly one Save of the returned secrets, then at most the encrypted request *)
 Theorem C07_success_effects :
   forall (H : bytes -> bytes) (E D : bytes -> bytes -> bytes) (modexp : Z -> Z -> Z -> Z)
